@@ -212,6 +212,49 @@ fn fam_reserved(ctx: &CaseCtx, cov: &mut Cov) -> CaseOut {
     out
 }
 
+/// EVERY value of the two stream-flag bytes (header and footer alike, CRCs
+/// repaired) and every combination of the reserved block-flag bits: only
+/// 00 00 / 00 01 / 00 04 are inside the supported subset.
+fn fam_flags_exhaustive(ctx: &CaseCtx, cov: &mut Cov) -> CaseOut {
+    let mut out = CaseOut::default();
+    let mut rng = ctx.rng();
+    let i = ctx.index % 272;
+    if i < 256 {
+        let b0 = i as u8;
+        let nb = rng.range(0, 2) as usize;
+        for b1 in 0..=255u8 {
+            if b0 == 0 && b1 < 16 {
+                continue; // check IDs proper: family check_ids
+            }
+            // blocks carry the check field the low nibble announces (so that nothing else is wrong)
+            let id = b1 & 0x0F;
+            let blocks = valid_blocks(&mut rng, id, nb);
+            let mut spec = XzSpec::new(id, blocks);
+            spec.header_flags = [b0, b1];
+            spec.footer_flags = [b0, b1];
+            let file = spec.serialize().0;
+            must_refuse(&mut out, cov, 6, &format!("stream flags {:02x} {:02x} in header and footer, {} blocks", b0, b1, nb), &file, &mut rng);
+        }
+        cov.name("stream_flag_words_enumerated", 1);
+    } else {
+        let bits = ((i - 255) as u8) << 2; // 1..=16 -> reserved bits 2..5 in every non-zero combination (16 wraps to bit 6: skipped)
+        if bits & 0x3C == 0 || bits & 0xC0 != 0 {
+            return out;
+        }
+        let (mut spec, desc) = loop {
+            let (s, d) = gen_xz(&mut rng, &XzGenParams::small());
+            if !s.blocks.is_empty() {
+                break (s, d);
+            }
+        };
+        let bi = rng.usize_below(spec.blocks.len());
+        spec.blocks[bi].flags |= bits;
+        let file = spec.serialize().0;
+        must_refuse(&mut out, cov, 5, &format!("block {} flags |= {:#04x} [{}]", bi, bits, desc), &file, &mut rng);
+    }
+    out
+}
+
 /// several streams / stream padding (valid per the format, outside the subset)
 fn fam_multi(ctx: &CaseCtx, cov: &mut Cov) -> CaseOut {
     let mut out = CaseOut::default();
@@ -328,7 +371,7 @@ pub fn monitor(tier: Tier) -> Monitor {
     Monitor {
         id: "C18",
         level: "exploration",
-        rule: "cases = well-formed files using one feature outside the supported subset: each of the 16 check IDs x 0-3 blocks (digest correct for SHA-256), delta / six BCJ filters + LZMA2 written by liblzma, unknown filter IDs (every ID 0x00-0x5F, random large ones, and IDs that coincide with 0x21 in their low 8 / 16 / 32 bits), each reserved bit of block flags and stream flags (header = footer, CRCs repaired), two concatenated streams with 0-8192 padding bytes, stream padding of 4-16384 bytes, the unsupported feature placed in a LATER block of a multi-block file (foreign filter chains of 1-4 filters, reserved block-flag bits, a SHA-256 file whose last block is empty); liblzma confirms well-formedness where it can; expected Err; distinct by hash of the file",
+        rule: "cases = well-formed files using one feature outside the supported subset: ALL 65536 values of the two stream-flag bytes (same in header and footer, CRC32s repaired, blocks carrying the check field the low nibble announces) other than the check IDs proper, every combination of the reserved block-flag bits; each of the 16 check IDs x 0-3 blocks (digest correct for SHA-256), delta / six BCJ filters + LZMA2 written by liblzma, unknown filter IDs (every ID 0x00-0x5F, random large ones, and IDs that coincide with 0x21 in their low 8 / 16 / 32 bits), each reserved bit of block flags and stream flags (header = footer, CRCs repaired), two concatenated streams with 0-8192 padding bytes, stream padding of 4-16384 bytes, the unsupported feature placed in a LATER block of a multi-block file (foreign filter chains of 1-4 filters, reserved block-flag bits, a SHA-256 file whose last block is empty); liblzma confirms well-formedness where it can; expected Err; distinct by hash of the file",
         assumptions: vec![
             "a SHA-256 file with zero blocks has nothing to verify: either verdict accepted there, success must deliver nothing (counted as lenient.sha256_zero_blocks)".into(),
             "unknown filter IDs cannot be confirmed by liblzma (it refuses them too)".into(),
@@ -336,6 +379,7 @@ pub fn monitor(tier: Tier) -> Monitor {
         families: vec![
             Family { name: "check_ids", count: tier.pick(64 * 60, 64 * 2000), priority: true, enumerated: false, run: fam_checks },
             Family { name: "filters", count: tier.pick(6_000, 150_000), priority: false, enumerated: false, run: fam_filters },
+            Family { name: "flags_exhaustive", count: tier.pick(272, 272 * 8), priority: true, enumerated: false, run: fam_flags_exhaustive },
             Family { name: "reserved_bits", count: tier.pick(15_000, 300_000), priority: false, enumerated: false, run: fam_reserved },
             Family { name: "later_block", count: tier.pick(6_000, 120_000), priority: false, enumerated: false, run: fam_later_block },
             Family { name: "multi_stream", count: tier.pick(15_000, 300_000), priority: false, enumerated: false, run: fam_multi },
